@@ -104,6 +104,8 @@ impl MemoryPool {
 
     /// Try to allocate memory
     pub fn try_allocate(&self, size: usize) -> Option<MemoryReservation<'_>> {
+        #[cfg(qe_verif)]
+        crate::verif_hooks::sync_point("pool.try.load");
         let mut current = self.used.load(Ordering::Relaxed);
         loop {
             let new_usage = current.checked_add(size)?;
@@ -111,6 +113,8 @@ impl MemoryPool {
                 return None;
             }
 
+            #[cfg(qe_verif)]
+            crate::verif_hooks::sync_point("pool.try.cas");
             match self.used.compare_exchange_weak(
                 current,
                 new_usage,
@@ -127,6 +131,8 @@ impl MemoryPool {
 
     /// Force allocate memory (may exceed limit)
     pub fn allocate(&self, size: usize) -> MemoryReservation<'_> {
+        #[cfg(qe_verif)]
+        crate::verif_hooks::sync_point("pool.alloc.add");
         self.used.fetch_add(size, Ordering::SeqCst);
         MemoryReservation { pool: self, size }
     }
@@ -147,6 +153,8 @@ impl MemoryPool {
     }
 
     fn release(&self, size: usize) {
+        #[cfg(qe_verif)]
+        crate::verif_hooks::sync_point("pool.release.sub");
         self.used.fetch_sub(size, Ordering::SeqCst);
     }
 }
@@ -167,9 +175,13 @@ impl<'a> MemoryReservation<'a> {
     pub fn resize(&mut self, new_size: usize) {
         if new_size > self.size {
             let diff = new_size - self.size;
+            #[cfg(qe_verif)]
+            crate::verif_hooks::sync_point("pool.resize.add");
             self.pool.used.fetch_add(diff, Ordering::SeqCst);
         } else {
             let diff = self.size - new_size;
+            #[cfg(qe_verif)]
+            crate::verif_hooks::sync_point("pool.resize.sub");
             self.pool.used.fetch_sub(diff, Ordering::SeqCst);
         }
         self.size = new_size;
